@@ -23,29 +23,33 @@ META = {
 def obligations(tier, seed):
     t = 400 if tier == 'quick' else 1800
     obs = []
-    n_max = 2 if tier == 'quick' else 3
-    obs.append(dict(name='C05a.suite_hooks', fn='suite_kernel', timeout=t,
-                    shards=[['which == %d' % w, 'pk == %d' % pk, 'n <= %d' % n_max] for w in range(4) for pk in range(transkern.N_PARENT)],
-                    bounds='4 transforms x %d parents x statement lists of length <= %d' % (transkern.N_PARENT, n_max)))
+    if tier == 'quick':
+        sh = [['which == %d' % w, 'n <= 1'] for w in range(4)]
+        sh += [['which == %d' % w, 'pk == %d' % pk, 'n == 2'] for w in range(4) for pk in (0, 1, 10, 14)]
+        sb = '4 transforms x %d parents x statement lists of length <= 1, and length 2 under module/def/except/case' % transkern.N_PARENT
+    else:
+        sh = [['which == %d' % w, 'pk == %d' % pk, 'n <= 3'] for w in range(4) for pk in range(transkern.N_PARENT)]
+        sb = '4 transforms x %d parents x statement lists of length <= 3' % transkern.N_PARENT
+    obs.append(dict(name='C05a.suite_hooks', fn='suite_kernel', timeout=t, shards=sh, bounds=sb))
     obs.append(dict(name='C05a.remove_debug', fn='debug_kernel', timeout=t, shards=[['shape == %d' % s, 'else_kind == %d' % e] for s in range(5) for e in range(3)],
                     bounds='see META'))
     obs.append(dict(name='C05a.remove_object', fn='object_kernel', timeout=t, shards=[['shape == %d' % s] for s in range(5)], bounds='see META'))
     obs.append(dict(name='C05a.return_none', fn='return_none_kernel', timeout=t, shards=[[]], bounds='see META'))
-    obs.append(dict(name='C05a.combine_imports', fn='imports_kernel', timeout=t, shards=[['n == %d' % i, 'lv0 == %d' % l] for i in range(5) for l in range(2)],
+    obs.append(dict(name='C05a.combine_imports', fn='imports_kernel', timeout=t, shards=[['n == %d' % i, 'lv0 == %d' % l] for i in range(4 if tier == 'quick' else 5) for l in range(2)],
                     bounds='<= 4 statements, module names |m| <= 3 symbolic, levels 0-2 (lv0 in {0,1} x lv1 in 0..2)'))
     obs.append(dict(name='C05a.annotations', fn='annotations_kernel', timeout=t,
                     shards=[['where == %d' % w, 'dec_kind == %d' % d] for w in range(3) for d in (range(5) if w == 2 else [0])], bounds='see META'))
     obs.append(dict(name='C05a.posargs', fn='posargs_kernel', timeout=t, shards=[[]], bounds='0-2 positional-only x 0-2 normal parameters, def and lambda'))
     obs.append(dict(name='C05a.exception_brackets', fn='exception_brackets_kernel', timeout=t,
-                    shards=[['pos == %d' % p, 'rebind == %d' % r] for p in range(5) for r in range(7)], bounds='see META'))
+                    shards=[['pos == %d' % p, 'rebind == %d' % r] for p in range(5) for r in range(7) if tier == 'thorough' or p < 2 or r == 0], bounds='see META'))
     obs.append(dict(name='C05a.exception_brackets.twin', fn='exception_brackets_twin', timeout=t, shards=[[]], expect='refuted', bounds='reachability twin'))
     obs.append(dict(name='C05a.literal_statements_doc', fn='literal_doc_kernel', timeout=t, shards=[[]], bounds='symbolic name |nm| <= 8 used as name or attribute, in a function or at module level'))
     if tier == 'quick':
-        gs = [['o_lit == %s' % a, 'o_imp == %s' % b, 'o_ann == %s' % c, 'o_obj == True', 'o_ret == True', 'o_pos == %s' % a, 'o_fold == %s' % b]
+        gs = [['o_lit == %s' % a, 'o_imp == %s' % b, 'o_ann == %s' % c, 'o_obj == True', 'o_ret == True', 'o_pos == %s' % a, 'o_fold == %s' % b, 'o_ass == %s' % c, 'o_dbg == %s' % (not a)]
               for a in (True, False) for b in (True, False) for c in (True, False)]
     else:
         gs = [['o_lit == %s' % a, 'o_imp == %s' % b, 'o_ann == %s' % c, 'o_pass == %s' % d] for a in (True, False) for b in (True, False)
               for c in (True, False) for d in (True, False)]
     obs.append(dict(name='C05b.gating', fn='gating', timeout=t, shards=gs,
-                    bounds='quick: 8 shards x 2^8 option vectors (4 options pinned); thorough: all 2^15 vectors in 16 shards'))
+                    bounds='quick: 8 shards x 2^6 option vectors (the other options tied to the shard); thorough: all 2^15 vectors in 16 shards'))
     return obs
